@@ -929,6 +929,9 @@ func (fc *FnCtx) checkInvariants(li *LoopInfo, env *Env, kind string, guard Term
 	}
 	if li.lc != nil {
 		for _, inv := range li.lc.Invariants {
+			if len(inv.Props) > 0 && fc.eng.curProp != "" && !hasProp(inv.Props, fc.eng.curProp) {
+				continue
+			}
 			t, sks, err := fc.specBoolGoal(env, inv.Text)
 			if err != nil {
 				fc.unbound = append(fc.unbound, fmt.Sprintf("loop %d invariant %q: %v", li.ord, inv.Text, err))
@@ -969,6 +972,9 @@ func (fc *FnCtx) checkInvariants(li *LoopInfo, env *Env, kind string, guard Term
 func (fc *FnCtx) assumeInvariants(li *LoopInfo, env *Env) {
 	if li.lc != nil {
 		for _, inv := range li.lc.Invariants {
+			if len(inv.Props) > 0 && fc.eng.curProp != "" && !hasProp(inv.Props, fc.eng.curProp) {
+				continue
+			}
 			t, err := fc.specBool(env, inv.Text)
 			if err != nil {
 				continue
